@@ -298,6 +298,7 @@ func (g gate) Run(t *task.Task) error {
 	x.mu.Lock()
 	x.seq++
 	x.lastAct = time.Now()
+	x.lastEnter = x.lastAct
 	x.enters[t.Name]++
 	x.events = append(x.events, "enter:"+t.Name)
 	if x.cancelRet {
@@ -363,7 +364,9 @@ type execution struct {
 
 	ticksTotal, lastChange int
 	bySilence              int
-	lastAct                time.Time // last scheduler pass or runner entry (for the silence fallback only)
+	lastAct, lastEnter     time.Time // last scheduler pass or runner entry (for the silence fallback only)
+	started                time.Time
+	lastTick               map[*scheduler.ExecutionGraph]time.Time
 	seq                    int
 	parked                 map[string]*parked
 	enters                 map[string]int
@@ -493,6 +496,7 @@ func init() {
 				x.ticks[g]++
 				x.ticksTotal++
 				x.lastAct = time.Now()
+				x.lastTick[g] = x.lastAct
 				x.cond.Broadcast()
 				x.mu.Unlock()
 			}
@@ -602,6 +606,32 @@ func (x *execution) activeTicked(n int) bool {
 	return true
 }
 
+// silentOrTicked is activeTicked where a graph whose loop has made no pass for silenceFor counts as settled: a
+// loop with nothing left to launch may stop making passes while its stages run.
+func (x *execution) silentOrTicked(n int) bool {
+	now := time.Now()
+	silent := false
+	for g, m := range x.graphs {
+		active := m.parent == nil || (anyRunning(m.includers()) && !m.done())
+		for _, inc := range m.includers() {
+			if inc.u {
+				active = false
+			}
+		}
+		if active && x.ticks[g] < n {
+			lt, ok := x.lastTick[g]
+			if !ok {
+				lt = x.started
+			}
+			if now.Sub(lt) < silenceFor || now.Sub(x.lastEnter) < silenceFor {
+				return false
+			}
+			silent = true
+		}
+	}
+	return silent
+}
+
 type execResult struct {
 	viols       []xviol
 	suspect     string // watchdog fired: needs re-confirmation
@@ -622,7 +652,7 @@ var silenceFor = 250 * time.Millisecond
 
 func runExecution(spec *graphSpec, strat strategy, work string) (res execResult) {
 	x := &execution{spec: spec, strat: strat, all: map[string]*mstage{}, graphs: map[*scheduler.ExecutionGraph]*mgraph{},
-		ticks: map[*scheduler.ExecutionGraph]int{}, parked: map[string]*parked{}, enters: map[string]int{}}
+		ticks: map[*scheduler.ExecutionGraph]int{}, lastTick: map[*scheduler.ExecutionGraph]time.Time{}, started: time.Now(), parked: map[string]*parked{}, enters: map[string]int{}}
 	x.cond = sync.NewCond(&x.mu)
 	n := atomic.AddInt64(&execSeq, 1)
 	if needsCondDir(spec) {
@@ -704,7 +734,7 @@ func runExecution(spec *graphSpec, strat strategy, work string) (res execResult)
 			if have && x.activeTicked(2) {
 				break
 			}
-			if have && len(x.parked) > 0 && time.Since(x.lastAct) > silenceFor {
+			if have && len(x.parked) > 0 && x.silentOrTicked(2) {
 				// every start the model predicts has happened and the scheduling loops are silent: a loop that has
 				// nothing left to launch may legitimately stop making passes while its stages run. Exploration goes on
 				// (a stage that starts later is still seen by the monitors when it enters the runner).
